@@ -54,6 +54,17 @@ impl Job {
     }
 }
 
+/// 33 member labels, sorted by their address (the order of the contracts' listing)
+fn big_group_labels() -> Vec<&'static str> {
+    const L: [&str; 33] = [
+        "M00", "M01", "M02", "M03", "M04", "M05", "M06", "M07", "M08", "M09", "M10", "M11", "M12", "M13", "M14", "M15", "M16",
+        "M17", "M18", "M19", "M20", "M21", "M22", "M23", "M24", "M25", "M26", "M27", "M28", "M29", "M30", "M31", "M32",
+    ];
+    let mut v: Vec<(String, &'static str)> = L.iter().map(|l| (util::a(l), *l)).collect();
+    v.sort();
+    v.into_iter().map(|x| x.1).collect()
+}
+
 fn c09_jobs(thorough: bool) -> Vec<Job> {
     let mut out = vec![];
     let g = |name: &str, names: Vec<&'static str>, n: u8, weights: Vec<u64>, initial: Vec<(u8, u64)>, blocks: u64, dup: bool| {
@@ -68,6 +79,8 @@ fn c09_jobs(thorough: bool) -> Vec<Job> {
                     max_remove: 2,
                     initial,
                     dup_add: dup,
+                    initial_spelled: vec![],
+                    case_variants: dup,
                     hmax: H0 + blocks - 1,
                 },
                 memo: Default::default(),
@@ -94,6 +107,58 @@ fn c09_jobs(thorough: bool) -> Vec<Job> {
     // repeated initial members: instantiation is expected to be refused; if it is not, the invariants decide
     out.push(g("C09/group/init[A:1,A:2] (repeated member)", ab(), 2, vec![0, 1], vec![(0, 1), (0, 2)], 1, false));
     out.push(g("C09/group/init[A:1,B:1,A:1] (repeated member)", ab(), 2, vec![0, 1], vec![(0, 1), (1, 1), (0, 1)], 1, false));
+    // one account named in lower and in UPPER case bech32 spelling at instantiation
+    for (nm, list) in [
+        ("C09/group/init[A:3, A in upper case:4] (one account, two spellings)", vec![(0u8, 3u64, false), (0, 4, true)]),
+        ("C09/group/init[A in upper case:2, B:1]", vec![(0, 2, true), (1, 1, false)]),
+    ] {
+        out.push(Job::G9(
+            c09::GroupHist {
+                cfg: c09::GroupCfg {
+                    name: nm.to_string(),
+                    names: ab(),
+                    n_members: 2,
+                    weights: vec![0, 1],
+                    max_add: 1,
+                    max_remove: 1,
+                    initial: vec![],
+                    dup_add: false,
+                    initial_spelled: list,
+                    case_variants: true,
+                    hmax: H0,
+                },
+                memo: Default::default(),
+            },
+            Some(2),
+        ));
+    }
+    // more members than one listing page (33 > 30): the update alphabet is the two members that sort
+    // last in address order, every member is probed
+    {
+        let sorted = big_group_labels();
+        let mut names: Vec<&'static str> = vec![sorted[32], sorted[31]];
+        names.extend(sorted[..31].iter().copied());
+        names.push("D");
+        out.push(Job::G9(
+            c09::GroupHist {
+                cfg: c09::GroupCfg {
+                    name: "C09/group/33 initial members of weight 1/updates of the two last in address order/weights{0,2}/2 blocks".to_string(),
+                    names,
+                    n_members: 2,
+                    weights: vec![0, 2],
+                    max_add: 2,
+                    max_remove: 1,
+                    initial: (0..33u8).map(|i| (i, 1)).collect(),
+                    dup_add: false,
+                    initial_spelled: vec![],
+                    case_variants: false,
+                    hmax: H0 + 1,
+                },
+                memo: Default::default(),
+            },
+            Some(if thorough { 4 } else { 2 }),
+        ));
+    }
     let s = |tpw: u128, min_bond: u128, funds: Vec<u128>, blocks: u64| {
         Job::S9(
             c09::StakeHist {
@@ -250,6 +315,20 @@ fn c10_jobs(thorough: bool) -> Vec<Job> {
                 depth,
             ));
         }
+        // tokens_per_weight that does not fit 64 bits: stakes below it weigh 0, at or above it 1
+        out.push(mk(
+            cw20,
+            p64 + 1000,
+            5000,
+            hp,
+            [p64 + 13_000, 12_000, 0],
+            vec![12_000, p64 + 1000],
+            vec![1, 12_000],
+            3,
+            false,
+            "edge: tokens_per_weight above 2^64",
+            depth,
+        ));
         // two stakers whose weights fit 64 bits each but not together
         out.push(mk(
             cw20,
@@ -294,7 +373,9 @@ fn c14_jobs(thorough: bool) -> Vec<Job> {
                     add_lists: c09::add_lists(n, 2, &weights),
                     remove_lists: removes,
                     full_callers: full,
+                    wasm_admin: callers.contains(&7),
                     callers,
+                    members: c14::MEMBERS.to_vec(),
                     hooks,
                     hmax: H0 + blocks - 1,
                 },
@@ -317,13 +398,37 @@ fn c14_jobs(thorough: bool) -> Vec<Job> {
     }
     // (the quick configurations are part of the thorough tier too)
     out.push(g("C14/group/admin AD/init[]/members{A,B,C}/weights{0,1,2}/2 hooks/2 blocks", Some(0), vec![], 3, vec![0, 1, 2], rem3(), vec![0, 1], vec![0, 1, 2], hk(2), 2));
-    out.push(g("C14/group/admin AD/init[A:1,B:2]/members{A,B}/weights{0,1,2}/callers AD,AD2,X, the members A,B and the hooks H1,H2/2 hooks/2 blocks", Some(0), vec![(0, 1), (1, 2)], 2, vec![0, 1, 2], rem2(), vec![0, 1, 2], vec![0, 1, 2, 3, 4, 5, 6], hk(2), 2));
-    out.push(g("C14/group/no admin/init[A:1,B:2]/members{A,B}/weights{0,1,2}/callers AD,AD2,X, the members A,B and the hooks H1,H2/2 hooks/2 blocks", None, vec![(0, 1), (1, 2)], 2, vec![0, 1, 2], rem2(), vec![0, 1, 2], vec![0, 1, 2, 3, 4, 5, 6], hk(2), 2));
+    out.push(g("C14/group/admin AD/init[A:1,B:2]/members{A,B}/weights{0,1,2}/callers AD,AD2,X, the members A,B, the hooks H1,H2 and the wasm admin W/2 hooks/2 blocks", Some(0), vec![(0, 1), (1, 2)], 2, vec![0, 1, 2], rem2(), vec![0, 1, 2], vec![0, 1, 2, 3, 4, 5, 6, 7], hk(2), 2));
+    out.push(g("C14/group/no admin/init[A:1,B:2]/members{A,B}/weights{0,1,2}/callers AD,AD2,X, the members A,B, the hooks H1,H2 and the wasm admin W/2 hooks/2 blocks", None, vec![(0, 1), (1, 2)], 2, vec![0, 1, 2], rem2(), vec![0, 1, 2], vec![0, 1, 2, 3, 4, 5, 6, 7], hk(2), 2));
     // the admins themselves are offered as hook addresses: a governing contract that also listens
     out.push(g("C14/group/admin AD/init[A:1]/members{A,B}/weights{0,1,2}/hooks{H1,AD,AD2}/2 blocks", Some(0), vec![(0, 1)], 2, vec![0, 1, 2], rem2(), vec![0, 1], vec![0, 1, 2], vec!["H1", "AD", "AD2"], 2));
+    // more members than one listing page: 33 members, updates of the two that sort last
+    {
+        let sorted = big_group_labels();
+        let mut members: Vec<&'static str> = vec![sorted[32], sorted[31]];
+        members.extend(sorted[..31].iter().copied());
+        out.push(Job::G14(
+            c14::GroupAdmin {
+                cfg: c14::GroupCfg {
+                    name: "C14/group/admin AD/33 initial members of weight 1/updates of the two last in address order/weights{0,2}/1 hook".to_string(),
+                    admin: Some(0),
+                    initial: (0..33u8).map(|i| (i, 1)).collect(),
+                    add_lists: c09::add_lists(2, 2, &[0, 2]),
+                    remove_lists: vec![vec![], vec![0], vec![1]],
+                    full_callers: vec![0],
+                    callers: vec![0],
+                    members,
+                    wasm_admin: false,
+                    hooks: hk(1),
+                    hmax: H0,
+                },
+            },
+            Some(if thorough { 4 } else { 3 }),
+        ));
+    }
     let s = |admin: Option<u8>, tpw: u128, mb: u128, funds: Vec<u128>, amounts: Vec<u128>, hooks: Vec<&'static str>, blocks: u64, cw20: bool| {
         // the default hook addresses also try the admin/hook calls themselves
-        let callers: Vec<u8> = if hooks.iter().all(|h| c14::HOOKS.contains(h)) { vec![0, 1, 2, 5, 6] } else { vec![0, 1, 2] };
+        let callers: Vec<u8> = if hooks.iter().all(|h| c14::HOOKS.contains(h)) { vec![0, 1, 2, 5, 6, 7] } else { vec![0, 1, 2] };
         let hooks_name = if hooks.iter().all(|h| c14::HOOKS.contains(h)) { format!("{} hooks", hooks.len()) } else { format!("hooks{:?}", hooks) };
         Job::S14(
             c14::StakeAdmin {
@@ -340,6 +445,7 @@ fn c14_jobs(thorough: bool) -> Vec<Job> {
                     funds,
                     amounts,
                     cw20,
+                    wasm_admin: callers.contains(&7),
                     callers,
                     hooks,
                     hmax: H0 + blocks - 1,
@@ -376,17 +482,17 @@ fn jobs(prop: &str, thorough: bool) -> Vec<Job> {
 fn describe(prop: &str) -> (&'static str, &'static str, &'static str) {
     match prop {
         "C09" => (
-            "cw4-group: UpdateMembers with every add list over the member alphabet x weight alphabet of size <= 2 combined with every remove list of size <= 2 (overlaps, re-adds, re-weights, removal of non-members, zero weights, empty update, a repeated address in add and in remove, weights 2^64-1), any number of updates per block, AdvanceBlock up to the block bound; initial lists [], [A:1], [A:0], [A:1,B:2] and lists with a repeated member. cw4-stake (kernel + bank, native denom): Bond/Unbond of 1..3 tokens by two users, Claim, AdvanceBlock; one edge configuration with two users bonding 1e19 each (sum of weights above 2^64).",
+            "cw4-group: UpdateMembers with every add list over the member alphabet x weight alphabet of size <= 2 combined with every remove list of size <= 2 (overlaps, re-adds, re-weights, removal of non-members, zero weights, empty update, a repeated address in add and in remove, weights 2^64-1), any number of updates per block, AdvanceBlock up to the block bound; initial lists [], [A:1], [A:0], [A:1,B:2] lists with a repeated member and lists naming one account in lower and UPPER case spelling; updates naming a member in UPPER case; a group of 33 members (more than one listing page). cw4-stake (kernel + bank, native denom): Bond/Unbond of 1..3 tokens by two users, Claim, AdvanceBlock; one edge configuration with two users bonding 1e19 each (sum of weights above 2^64).",
             "reference = membership at the START of every block since instantiation. After every step, for every probe address (members and a never-member) and every height h in {0, H0-1, H0 .. now+2}: Member{addr,at_height:h} == reference (None up to and including the instantiation height, unaffected by changes in block h or later, current value for future heights); Member{addr} == current; cw4-group TotalWeight{at_height:h} likewise; TotalWeight == sum of ListMembers paged by 2; listing == true membership; ListMembers{start_after: X} for every probe address X (member or not), in one page and paged by 1, == the true members sorting after X; raw cw4::TOTAL_KEY and cw4::member_key(addr) decode to the smart-query values. For cw4-stake the history is built from the weights the contract reported when they were current (whether they are the right function of the stake is C10).",
             "the clock is capped (blocks per configuration in its name) and weights are finite, so every configuration runs to a FIXPOINT: all histories over the alphabet within the block bound, any number of updates per block",
         ),
         "C10" => (
-            "Bond with funds {1,2,3 of the stake denom, another denom, a denom equal to the stake denom up to letter case, two denoms, none; in cw20 configurations a native coin whose denom is spelled like the token address}; cw20 Send{Bond} through the configured real cw20-base token and through a foreign one; Receive sent directly by a user (for himself / for another user); Unbond {0,1,2,3, stake+1}; Claim; a donation to the contract; AdvanceBlock (+1 block, +5 s; in the sub-second configuration blocks start at T0+0.7 s and advance by 9.5 s or 0.5 s). Configurations: native / cw20 stake token, tokens_per_weight {1,2,3}, min_bond {0,1,2,5}, unbonding Height(2) / Time(10 s), two stakers with finite funds and a donor. Edge configurations: bonds of 2^64*tpw-1, 2^64*tpw, 2^64*tpw+3, 2^128-1, 2^128-2, and two stakers bonding 1e19 each (sum of weights above 2^64).",
+            "Bond with funds {1,2,3 of the stake denom, another denom, a denom equal to the stake denom up to letter case, two denoms, a zero amount of the stake denom next to a foreign coin (both orders), none; in cw20 configurations a native coin whose denom is spelled like the token address}; cw20 Send{Bond} through the configured real cw20-base token and through a foreign one; Receive sent directly by a user (for himself / for another user); Unbond {0,1,2,3, stake+1}; Claim; a donation to the contract; AdvanceBlock (+1 block, +5 s; in the sub-second configuration blocks start at T0+0.7 s and advance by 9.5 s or 0.5 s). Configurations: native / cw20 stake token, tokens_per_weight {1,2,3}, min_bond {0,1,2,5}, unbonding Height(2) / Time(10 s), two stakers with finite funds and a donor. Edge configurations: bonds of 2^64*tpw-1, 2^64*tpw, 2^64*tpw+3, 2^128-1, 2^128-2, two stakers bonding 1e19 each (sum of weights above 2^64), and tokens_per_weight 2^64+1000 with min_bond 5000.",
             "reference ledger {stake[u], claims[u]=[(amount, unbond block height / exact block time in nanoseconds + period)]} stepped on accepted calls. State: real holdings of the contract (kernel bank / real cw20 balance) >= sum stakes + sum unreleased claims, == when nobody donated; Staked and Claims queries == ledger; Member{u} == Some(floor(stake/tokens_per_weight)) compared in 128 bits iff stake >= max(min_bond,1) else None; TotalWeight == sum of listed weights; listing == Member queries. Transition: accepted bond with anything but exactly the configured token, foreign-token Send{Bond} or user-sent Receive accepted => violation; Unbond above the stake accepted => violation; an accepted Claim moves exactly the sum of the caller's claims whose release point is reached (computed by the reference) from the contract to the caller and removes them, nobody else's balance moves; every other accepted call moves exactly its own amount; a refused call and a block advance change nothing.",
             "closed configurations (finite funds, capped clock, zero-unbond offered once per pending zero claim) run to FIXPOINT; edge configurations to the stated depth",
         ),
         "C14" => (
-            "cw4-group: UpdateAdmin{None|AD|AD2}, AddHook/RemoveHook{H1,H2(,H3)}, UpdateMembers (every add list of size <= 2 over members x weights, remove lists incl. overlap with add, a non-member, a repeated address; re-weight to the same value) by the admin, the other admin candidate, a stranger and (in two configurations) the members A and B themselves, incl. removing themselves, and the hook addresses H1, H2 themselves; hook addresses that are the admins themselves; AdvanceBlock. cw4-stake: the same admin/hook calls (also sent by the hook addresses) plus Bond/Unbond by two users; native denom (response messages observed, not dispatched) and one configuration with a real cw20-base stake token where Send{Bond} -> Receive and every hook message are dispatched by the kernel to sink contracts and the notifications are read from the dispatch trace.",
+            "cw4-group: UpdateAdmin{None|AD|AD2}, AddHook/RemoveHook{H1,H2(,H3)}, UpdateMembers (every add list of size <= 2 over members x weights, remove lists incl. overlap with add, a non-member, a repeated address; re-weight to the same value) by the admin, the other admin candidate, a stranger and (in two configurations) the members A and B themselves, incl. removing themselves, the hook addresses H1, H2 themselves and the chain-level (wasm) admin W of the contract; a group of 33 members (more than one listing page) whose last members in address order are re-weighted and removed; hook addresses that are the admins themselves; AdvanceBlock. cw4-stake: the same admin/hook calls (also sent by the hook addresses) plus Bond/Unbond by two users; native denom (response messages observed, not dispatched) and one configuration with a real cw20-base stake token where Send{Bond} -> Receive and every hook message are dispatched by the kernel to sink contracts and the notifications are read from the dispatch trace.",
             "reference {admin, hooks, members} stepped on accepted calls of the reference admin. A call by anyone else, and every call once the admin is None, leaves the Admin, Hooks and (cw4-group) ListMembers queries unchanged; after an admin's call they equal the reference. Every accepted call whose effect changes some weight returns exactly one member_changed_hook message per hook registered at that time; every notification goes to a registered hook, carries no funds, names only addresses the call listed (the bonding sender for cw4-stake), no entry has old None and new None; folding its diffs per address in order: first old == weight before the call, each new == next old, last new == weight after the call; every address whose weight changed has an entry. cw4-stake: a bond/unbond that changes no weight sends no notification.",
             "all configurations run to FIXPOINT (single block or two blocks; finite weights, hooks, admins, funds)",
         ),
